@@ -232,6 +232,28 @@ func freeRun(tw *traceWriter, run int, churn int) {
 			emit(map[string]interface{}{"k": "stuck", "report": "Close did not return: " + string(buf[:k])})
 		}
 	}
+	// calls that begin after Close has returned: Start, Do and Indicate are refused without writing
+	for j, kind := range []string{"start", "do", "indicate"} {
+		i := 50000 + j
+		m := new(stun.Message)
+		m.TransactionID = cliID(i)
+		m.Type = stun.BindingRequest
+		m.WriteHeader()
+		emit(map[string]interface{}{"k": "start_call", "s": i, "id": i, "raw": ints(m.Raw), "t": c.now()})
+		var err error
+		h := func(e stun.Event) {
+			emit(map[string]interface{}{"k": "handler", "s": i, "p": c.procName(), "kind": evKind(e), "id": idIndex(e.TransactionID), "msg": []int{}, "t": c.now()})
+		}
+		switch kind {
+		case "start":
+			err = cli.Start(m, h)
+		case "do":
+			err = cli.Do(m, h)
+		default:
+			err = cli.Indicate(m)
+		}
+		emit(map[string]interface{}{"k": "start_ret", "s": i, "err": fmtErr(err)})
+	}
 	close(stop)
 	emit(map[string]interface{}{"k": "end", "drifted": false, "free": true})
 	atomic.StoreInt32(&logging, 0)
